@@ -21,7 +21,7 @@ ASSUMPTIONS = [
     "when several minimal builds contain a commit (parallel tagged sub-branches) any one of them is accepted",
     "a commit carrying two build tags shows the smaller build number",
     "which branches without any listed commit appear in the report is not judged; the order of those that appear is",
-    "the obsolete-branch rule (head older than 30 days) is outside the quantifier: all times lie within the window",
+    "the obsolete-branch rule (head older than 30 days) is outside the quantifier: all times lie within one 30-day span, its end points included (so no branch is obsolete)",
 ]
 
 SEARCH = ["BUG-7", "fix", "#12", "X", "v1.2", "(BUG-7)", "a+b", "x|y", "fix*", "[ab]", "\\d", "$1", "c++"]
@@ -256,7 +256,7 @@ def st_case(draw, max_commits=10):
             msg = "%s\n%s in the body only %d" % (draw(st.sampled_from(["", "  "])), search, i)
         else:
             msg = "unrelated change %d" % i
-        commits.append({"parents": parents, "msg": msg, "ts": draw(st.integers(0, 86400 * 29))})
+        commits.append({"parents": parents, "msg": msg, "ts": draw(st.integers(0, 86400 * 30) | st.sampled_from([0, 1, 86400 * 29 + 1, 86400 * 30 - 1, 86400 * 30]))})
     nb = draw(st.integers(1, 5))
     names = draw(st.lists(st.sampled_from(["release/1.0", "release/2.0", "release/10.0", "release/1.10", "release/1.2",
                                            "release/1.0.1", "release/9.9", "master", "release/9_10", "release/10_9",
@@ -272,7 +272,20 @@ def st_case(draw, max_commits=10):
             continue
         percommit[idx] = percommit.get(idx, 0) + 1
         tags.append([idx, draw(st.sampled_from(names))])
-    tag_nums = draw(st.lists(st.integers(1, 9999), min_size=len(tags), max_size=len(tags), unique=True))
+    # build ids may repeat between tags of different branches (per-branch CI counters); the resulting build numbers
+    # major.minor.id stay unique
+    import re as _re
+    tag_nums = []
+    seen_labels = set()
+    for idx, bname in tags:
+        m = _re.match(r"release_(\d+)_(\d+)$", tag_branch_str(bname))
+        mm = (int(m.group(1)), int(m.group(2))) if m else (7, 1)
+        pool = sorted({n for (_mm, n) in seen_labels}) if seen_labels else []
+        num = draw(st.sampled_from(pool) | st.integers(1, 9999)) if pool and draw(st.booleans()) else draw(st.integers(1, 9999))
+        while (mm, num) in seen_labels:
+            num += 1
+        seen_labels.add((mm, num))
+        tag_nums.append(num)
     return {"commits": commits, "branches": branches, "tags": tags, "tag_nums": tag_nums, "search": search,
             "render": draw(st.integers(0, 3)) == 0}
 
